@@ -224,6 +224,18 @@ def run_impl(b: Built, rng=None):
                 lst = owner.namespace_nodes if n.node_kind == 'namespace' else owner.attributes
                 if not any(x is n for x in lst):
                     flaws.append(f'lazy-owner@{k}')
+        # tree.elements: one entry per wrapped object, in construction (= document) order, object -> its node
+        reg = root.tree.elements
+        wrapped_nodes = [n for n in nodes if n.node_kind in ('element', 'comment', 'processing-instruction')]
+        if [id(v) for v in reg.values()] != [id(n) for n in wrapped_nodes] or \
+                any(v.value is not k for k, v in reg.items()):
+            flaws.append('elements-registry')
+        if b.lib == 'L' or not c['tree'] or c['top'] is None:
+            pass
+        if wrapped_nodes and wrapped_nodes[0].node_kind == 'element':
+            start = wrapped_nodes[0].value
+            if nodes[0].node_kind == 'element' and [id(o) for o in start.iter()] != [id(k) for k in reg]:
+                flaws.append('elements-registry-not-preorder')
         lazy = list(root.iter_lazy())
         if len(lazy) != len(nodes) or any(a is not b_ for a, b_ in zip(lazy, nodes)):
             flaws.append('iter_lazy!=iter')
@@ -279,11 +291,68 @@ OP_EXPR = {'is': '$a is $b', 'prec': '$a << $b', 'foll': '$a >> $b', 'union': '$
 _tokens: dict = {}
 
 
-def op_token(name):
+_parsers: dict = {}
+
+
+def op_token(name, version=30):
+    """one token per (expression, parser class), reused for every document / variable map of the run"""
+    from elementpath import XPath2Parser
     from elementpath.xpath30 import XPath30Parser
-    if name not in _tokens:
-        _tokens[name] = XPath30Parser().parse(OP_EXPR[name])
-    return _tokens[name]
+    from elementpath.xpath31 import XPath31Parser
+    if name in ('inner', 'outer') and version == 20:
+        version = 30
+    key = (name, version)
+    if key not in _tokens:
+        if version not in _parsers:
+            _parsers[version] = {20: XPath2Parser, 30: XPath30Parser, 31: XPath31Parser}[version]()
+        _tokens[key] = _parsers[version].parse(OP_EXPR[name])     # the SAME parser instance parses them all
+    return _tokens[key]
+
+
+_flags: list = []
+
+
+def canon_value(v, idx):
+    from elementpath.xpath_nodes import XPathNode
+    if isinstance(v, (list, tuple)):
+        return [canon_value(x, idx) for x in v]
+    if isinstance(v, XPathNode):
+        return ('node', idx.get(id(v), '?'))
+    return v
+
+
+def checked_select(tok, mk, idx):
+    """list(tok.select(ctx)) with the systematic checks: the caller's (item, position, size, axis) after the
+    evaluation are what they were before; tok.evaluate() on an equal context gives the same items"""
+    ctx = mk()
+    before = (ctx.item, ctx.position, ctx.size, ctx.axis)
+    res = list(tok.select(ctx))
+    after = (ctx.item, ctx.position, ctx.size, ctx.axis)
+    moved = [n for n, a, b in zip(('item', 'position', 'size', 'axis'), before, after)
+             if not (a is b or (not hasattr(a, 'node_kind') and a == b))]
+    if moved:
+        _flags.append('!focus-moved:' + '+'.join(moved))
+    try:
+        ctx2 = mk()
+        before2 = (ctx2.item, ctx2.position, ctx2.size, ctx2.axis)
+        ev = tok.evaluate(ctx2)
+        ev = list(ev) if isinstance(ev, (list, tuple)) else ([] if ev is None else [ev])
+        if canon_value(ev, idx) != canon_value(res, idx):
+            _flags.append('!evaluate-differs-from-select')
+        after2 = (ctx2.item, ctx2.position, ctx2.size, ctx2.axis)
+        if any(not (a is b or (not hasattr(a, 'node_kind') and a == b)) for a, b in zip(before2, after2)):
+            _flags.append('!focus-moved-by-evaluate')
+    except Exception as e:
+        _flags.append('!evaluate-raised:' + type(e).__name__)
+    return res
+
+
+def focus_kwargs(nodes, op: str) -> dict:
+    """a non-root focus with non-default position / size / axis, derived from the request (deterministic)"""
+    import zlib
+    h = zlib.crc32(op.encode())
+    fk = h % len(nodes)
+    return dict(item=nodes[fk], position=2 + h % 3, size=5 + h % 4, axis=[None, 'child', 'descendant'][h % 3])
 
 
 PX_OPS = {'union': '{} union {}', 'bar': '{} | {}', 'inter': '{} intersect {}', 'except': '{} except {}',
@@ -332,12 +401,16 @@ def run_px(root, nodes, op: str) -> str:
             tok = _px_tokens[expr] = XPath30Parser().parse(expr)
         fnode = nodes[int(focus)]
         if form == 'i':
-            ctx = XPathContext(root=root, item=fnode)
+            def mk():
+                return XPathContext(root=root, item=fnode, position=2, size=3)
         else:
-            ctx = XPathContext(root=root, variables={'f': fnode})
-        res = list(tok.select(ctx))
+            fkw = focus_kwargs(nodes, op)
+
+            def mk():
+                return XPathContext(root=root, variables={'f': fnode}, **fkw)
         # the expression must give the focus back: this is what makes `copy(context)` per operand sufficient
-        moved = '!focus-moved' if form == 'i' and ctx.item is not fnode else ''
+        res = checked_select(tok, mk, idx)
+        moved = ''
         if form != 'q' and opn in ('is', 'prec', 'foll'):
             return ('-' if not res else ('T' if res[0] is True else 'F' if res[0] is False else f'?{res[0]!r}')) + moved
         return ('.'.join(str(idx.get(id(x), '?')) for x in res) or '_') + moved
@@ -346,6 +419,12 @@ def run_px(root, nodes, op: str) -> str:
 
 
 def run_op(root, nodes, op: str) -> str:
+    _flags.clear()
+    out = _run_op(root, nodes, op)
+    return out + ''.join(sorted(set(_flags)))
+
+
+def _run_op(root, nodes, op: str) -> str:
     from elementpath import XPathContext
     parts = op.split(':')
     name = parts[0]
@@ -353,16 +432,20 @@ def run_op(root, nodes, op: str) -> str:
 
     def lst(s):
         return [] if s == '_' else [nodes[int(k)] for k in s.split('.')]
+    import zlib
+    ver = (20, 30, 31)[zlib.crc32(op.encode()) % 3]     # XPath2Parser / XPath30Parser / XPath31Parser
     if name == 'px':
         return run_px(root, nodes, op)
     try:
         if name == 'ecmp':
             k = nodes[int(parts[3])]
             variables = {'a': [] if parts[2] == 'L' else k, 'b': k if parts[2] == 'L' else []}
-            res = list(op_token(parts[1]).select(XPathContext(root=root, variables=variables)))
+            fkw = focus_kwargs(nodes, op)
+            res = checked_select(op_token(parts[1], ver), lambda: XPathContext(root=root, variables=variables, **fkw), idx)
             return '-' if not res else f'?{res!r}'
         if name == 'eroot':
-            res = list(op_token('root').select(XPathContext(root=root, variables={'a': []})))
+            fkw = focus_kwargs(nodes, op)
+            res = checked_select(op_token('root', ver), lambda: XPathContext(root=root, variables={'a': []}, **fkw), idx)
             return '-' if not res else f'?{res!r}'
         if name == 'citem':
             k = int(parts[1])
@@ -384,30 +467,42 @@ def run_op(root, nodes, op: str) -> str:
         if name == 'croot':
             k = int(parts[2])
             if parts[1] == '-':
-                ctx = XPathContext(item=nodes[k])
-                tok = op_token('root0' if k % 2 else 'croot')
-                if not k % 2:
-                    ctx = XPathContext(item=nodes[k], variables={'a': nodes[k]})
+                tok = op_token('root0' if k % 2 else 'croot', ver)
+                if k % 2:
+                    def mk():
+                        return XPathContext(item=nodes[k], position=2, size=4)
+                else:
+                    def mk():
+                        return XPathContext(item=nodes[k], variables={'a': nodes[k]})
             elif k % 2:
-                ctx, tok = XPathContext(root=nodes[int(parts[1])], item=nodes[k]), op_token('root0')
+                tok = op_token('root0', ver)
+
+                def mk():
+                    return XPathContext(root=nodes[int(parts[1])], item=nodes[k], position=3, size=3)
             else:
-                ctx, tok = XPathContext(root=nodes[int(parts[1])], variables={'a': nodes[k]}), op_token('croot')
-            res = list(tok.select(ctx))
+                tok = op_token('croot', ver)
+
+                def mk():
+                    return XPathContext(root=nodes[int(parts[1])], variables={'a': nodes[k]})
+            res = checked_select(tok, mk, idx)
             return '-' if not res else str(idx.get(id(res[0]), '?'))
         if name in ('cprec', 'cfoll'):
             variables = {'a': nodes[int(parts[2])], 'b': nodes[int(parts[3])]}
             if parts[1] == '-':
-                ctx = XPathContext(item=nodes[int(parts[2])], variables=variables)
+                def mk():
+                    return XPathContext(item=nodes[int(parts[2])], variables=variables)
             else:
-                ctx = XPathContext(root=nodes[int(parts[1])], variables=variables)
+                def mk():
+                    return XPathContext(root=nodes[int(parts[1])], variables=variables)
             try:
-                res = list(op_token(name).select(ctx))
+                res = list(op_token(name, ver).select(mk()))
             except Exception as e:
                 return '-' if 'FOCA0002' in str(e) else err_str(e)
             return '-' if not res else ('T' if res[0] is True else 'F' if res[0] is False else f'?{res[0]!r}')
         if name == 'chain':
-            ctx = XPathContext(root=root, variables={'A': lst(parts[1]), 'B': lst(parts[2]), 'C': lst(parts[3])})
-            res = list(op_token(name).select(ctx))
+            fkw = focus_kwargs(nodes, op)
+            vs = {'A': lst(parts[1]), 'B': lst(parts[2]), 'C': lst(parts[3])}
+            res = checked_select(op_token(name, ver), lambda: XPathContext(root=root, variables=vs, **fkw), idx)
             return '.'.join(str(idx.get(id(x), '?')) for x in res) or '_'
         if name in ('is', 'prec', 'foll'):
             variables = {'a': nodes[int(parts[1])], 'b': nodes[int(parts[2])]}
@@ -417,13 +512,12 @@ def run_op(root, nodes, op: str) -> str:
             variables = {'A': lst(parts[1])}
             if nodes[0].node_kind == 'element' and len(parts[1]) % 2:
                 # a fragment context (no document): iter_ancestors stops at the context root
-                ctx = XPathContext(root=root, fragment=True, variables=variables)
-                res = list(op_token(name).select(ctx))
+                res = checked_select(op_token(name), lambda: XPathContext(root=root, fragment=True, variables=variables), idx)
                 return '.'.join(str(idx.get(id(x), '?')) for x in res) or '_'
         else:
             variables = {'A': lst(parts[1]), 'B': lst(parts[2])}
-        ctx = XPathContext(root=root, variables=variables)
-        res = list(op_token(name).select(ctx))
+        fkw = focus_kwargs(nodes, op)
+        res = checked_select(op_token(name, ver), lambda: XPathContext(root=root, variables=variables, **fkw), idx)
         if name in ('is', 'prec', 'foll'):
             return '-' if not res else ('T' if res[0] is True else 'F' if res[0] is False else f'?{res[0]!r}')
         if name == 'root':
@@ -806,6 +900,8 @@ def compare(run: Run, cases: list[dict], nops: int = 6, stats: bool = True) -> N
                     run.disagree(Disagreement(ocase, impl, m, what='reget',
                                               site='tree_builders.get_node_tree l. 49-61, get_document_node, getroot'))
                 continue
+            if stats and region and impl == s:
+                st.count('F02e-region-but-agrees (trigger not exact)')
             if impl != s:
                 tags = ['F02e'] if region else []
                 if stats and tags:
